@@ -294,7 +294,7 @@ pub fn run(r: &mut Report) {
     let mut d = Driver::spawn();
     let (shard, nshards) = shard();
     r.rule = "stores = generated worlds spiced with quoted / multi-line / Unicode / control-character free text, empty and singleton lists, explicit empty policy criteria, long arrays and inline tables, renew flags, description-url criteria; written, loaded with the formatting check on, compared, written again. Serde cases = random audit entries / policy tables through the real serde code vs the model. Non-trivial = store with >= 5 records, every serde case; distinct by file contents".into();
-    let n = if r.thorough() { 8000 } else { 1200 } / nshards;
+    let n = if r.thorough() { 12000 } else { 3600 } / nshards;
     let mut rng = Rng::new(r.seed.wrapping_add(shard.wrapping_mul(141650939)) ^ 0xC14);
     for i in 0..n {
         let mut crng = rng.fork();
